@@ -83,17 +83,18 @@ static int timer_mode(const std::string &eng, size_t depth, int config) {
 }
 
 // ---------------------------------------------------------------------------------------------
-enum PK { P_EVERY, P_AFTER, P_CANCEL, P_ADVANCE, P_CLEANUP };
+enum PK { P_EVERY, P_AFTER, P_CANCEL, P_ADVANCE, P_CLEANUP, P_AT };
 enum PA { PA_NONE, PA_CANCEL_SELF, PA_CANCEL_OLDER, PA_CLEANUP_THEN_AFTER, PA_ADD_AFTER };
 static const char *paN[] = {"none", "cancel-self", "cancel-older", "cleanup-then-doAfter", "add-doAfter"};
 struct POp { int k, a, b; };
 static int pool_mode(const std::string &eng, size_t depth) {
   using tbox::eventx::TimerPool;
   hx::Explorer<POp> ex; ex.name = "pool-" + eng + "-part" + std::to_string(g_part); ex.deadline_s = hx::deadline_from_env(600); ex.part = g_part; ex.nparts = g_nparts;
-  ex.show = [](const POp &o) { char b[64]; switch (o.k) { case P_EVERY: snprintf(b, 64, "doEvery(%d,%s)", o.a, paN[o.b]); break; case P_AFTER: snprintf(b, 64, "doAfter(%d,%s)", o.a, paN[o.b]); break; case P_CANCEL: snprintf(b, 64, "cancel(#%d)", o.a); break; case P_ADVANCE: snprintf(b, 64, "advance(%d)+pass", o.a); break; default: snprintf(b, 64, "cleanup"); } return std::string(b); };
+  ex.show = [](const POp &o) { char b[64]; switch (o.k) { case P_EVERY: snprintf(b, 64, "doEvery(%d,%s)", o.a, paN[o.b]); break; case P_AFTER: snprintf(b, 64, "doAfter(%d,%s)", o.a, paN[o.b]); break; case P_AT: snprintf(b, 64, "doAt(now+%d,%s)", o.a, paN[o.b]); break; case P_CANCEL: snprintf(b, 64, "cancel(#%d)", o.a); break; case P_ADVANCE: snprintf(b, 64, "advance(%d)+pass", o.a); break; default: snprintf(b, 64, "cleanup"); } return std::string(b); };
   ex.menu = [&](const std::vector<POp> &h) {
-    std::vector<POp> m; int issued = 0; for (auto &o : h) if (o.k == P_EVERY || o.k == P_AFTER) issued++;
+    std::vector<POp> m; int issued = 0; for (auto &o : h) if (o.k == P_EVERY || o.k == P_AFTER || o.k == P_AT) issued++;
     if (issued < 3) for (int iv : {1, 2}) for (int a = 0; a <= PA_ADD_AFTER; a++) { m.push_back({P_EVERY, iv, a}); m.push_back({P_AFTER, iv, a}); }
+    if (issued < 3) m.push_back({P_AT, 2, PA_NONE});       // absolute wall-clock time point (the virtual clock serves every clock id)
     for (int i = 0; i < issued; i++) m.push_back({P_CANCEL, i, 0});
     for (int d : {0, 1, 2, 5}) m.push_back({P_ADVANCE, d, 0});
     m.push_back({P_CLEANUP, 0, 0}); return m; };
@@ -122,6 +123,10 @@ static int pool_mode(const std::string &eng, size_t depth) {
     std::vector<int> top;
     for (auto &o : h) { if (!viol.empty()) break;
       switch (o.k) {
+        case P_AT: { int idx = (int)ts.size(); ts.push_back(T{TimerPool::TimerToken(), false, o.a, true, vnow + o.a, 0, PA_NONE});
+          auto tp = std::chrono::system_clock::now() + std::chrono::milliseconds(o.a);
+          ts[idx].tok = pool->doAt(tp, [&, idx] { if (!viol.empty()) return; T &x = ts[idx]; if (!x.live) { viol = "pool-callback-after-cancel-or-cleanup"; return; } if (vnow < x.dl) { viol = "pool-fired-early"; return; } x.fires++; x.live = false; });
+          if (ts[idx].tok.isNull()) viol = "pool-null-token"; top.push_back(idx); } break;
         case P_EVERY: top.push_back(add(true, o.a, o.b)); break;
         case P_AFTER: top.push_back(add(false, o.a, o.b)); break;
         case P_CANCEL: { T &x = ts[top[o.a]]; bool r = pool->cancel(x.tok); if (r != x.live) viol = "pool-cancel-answer-disagrees-with-liveness"; x.live = false; } break;
